@@ -1,16 +1,8 @@
-"""Parallel developer runner:  python3-vt -m pyvc.pdev [-k SHARDS] <qualname> [...]  (all obligations, no property filter)"""
-import multiprocessing as mp
+"""Parallel developer runner:  python3-vt -m pyvc.pdev [-k JOBS] <qualname> [...]  (all obligations, no property filter)"""
+import json
+import subprocess
 import sys
 import time
-
-from . import driver
-
-
-def _w(task):
-    qual, shard, n = task
-    import re
-    driver.obligations_for = lambda prop, con, name, kind: True
-    return driver._work((qual, shard, n, "DEV", 10000, "quick"))
 
 
 def main(argv):
@@ -20,17 +12,26 @@ def main(argv):
         argv = [a for i, a in enumerate(argv) if a != "-k" and (i == 0 or argv[i - 1] != "-k")]
     quals = [a for a in argv if not a.startswith("-")]
     t0 = time.time()
-    tasks = [(q, s, k) for q in quals for s in range(k)]
-    with mp.get_context("fork").Pool(min(16, len(tasks))) as pool:
-        res = pool.map(_w, tasks, chunksize=1)
     for q in quals:
-        rs = [r for r in res if r["qual"] == q]
-        errs = [r["error"] for r in rs if r["error"]]
-        obs = [o for r in rs for o in r["results"]]
+        import tempfile
+        with tempfile.TemporaryFile("w+") as fo, tempfile.TemporaryFile("w+") as fe:
+            subprocess.run([sys.executable, "-m", "pyvc.driver", "--funcworker", q, "DEV", "quick", str(k)], stdout=fo, stderr=fe, text=True)
+            fo.seek(0); fe.seek(0)
+            out, err = fo.read(), fe.read()
+
+        class P:
+            stdout, stderr = out, err
+        p = P
+        lines = [ln for ln in p.stdout.splitlines() if ln.startswith("{")]
+        if not lines:
+            print(q, "NO RESULT", p.stderr[-1500:])
+            continue
+        r = json.loads(lines[-1])
+        obs = r["results"]
         bad = [o for o in obs if o["verdict"] != "unsat"]
-        print(f"{q}: obligations={len(obs)} not-discharged={len(bad)} paths={rs[0].get('paths')} gen={rs[0].get('gen_s')}s errors={len(errs)}")
-        for e in errs[:1]:
-            print("   ERROR", e[:600])
+        print(f"{q}: obligations={len(obs)} not-discharged={len(bad)} paths={r.get('paths')} gen={r.get('gen_s')}s wall={r.get('wall_s')}s")
+        if r.get("error"):
+            print("   ERROR", r["error"][:1200])
         for o in bad:
             print(f"   {o['verdict']:8s} {o['time_s']:.1f}s {o['name'][:170]}")
     print(f"wall {time.time()-t0:.1f}s")
